@@ -49,6 +49,12 @@ func (t *MailboxTracker) queueUpdate(update *trackerUpdate, source *SessionTrack
 		panic(fmt.Errorf("imapserver: cannot decrease mailbox number of messages from %v to %v", t.numMessages, update.numMessages))
 	}
 
+	if update.numMessages != 0 {
+		// remember the previous count so that EncodeSeqNum can tell which
+		// messages this update introduces
+		update.prevNumMessages = t.numMessages
+	}
+
 	for st := range t.sessions {
 		if source != nil && st == source {
 			continue
@@ -102,6 +108,9 @@ type trackerUpdate struct {
 	numMessages  uint32
 	mailboxFlags []imap.Flag
 	fetch        *trackerUpdateFetch
+
+	// number of messages before a numMessages update was queued
+	prevNumMessages uint32
 }
 
 type trackerUpdateFetch struct {
@@ -272,8 +281,9 @@ func (t *SessionTracker) EncodeSeqNum(seqNum uint32) uint32 {
 
 	for i := len(t.queue) - 1; i >= 0; i-- {
 		update := t.queue[i]
-		// TODO: this doesn't handle increments > 1
-		if update.numMessages != 0 && seqNum == update.numMessages {
+		// the messages prevNumMessages+1..numMessages were added by this
+		// update, the client doesn't know about them yet
+		if update.numMessages != 0 && seqNum > update.prevNumMessages && seqNum <= update.numMessages {
 			return 0
 		}
 		if update.expunge != 0 && seqNum >= update.expunge {
